@@ -430,6 +430,8 @@ def run(ck):
         ck.decide(not bad, "WHO/no-clone", o.replace(Z, ""), "neither Clone nor Copy: duplication only through copy()",
                   "%s implements %s: safe code can make a bitwise duplicate that shares (and double-frees) the allocation" % (o, [b["trait"] for b in bad]))
     from .. import condparity
+    from .. import guards as _g
+    _g.published_reset(ck, P)
     ck.floor("SIB/ref-conditions", condparity.check(ck, P, "SIB/ref-conditions", only={"inflate.c:inflateResetKeep", "inflate.c:inflateReset", "deflate.c:deflateReset", "deflate.c:lm_init", "deflate.c:deflateCopy", "inflate.c:inflateCopy", "deflate.c:deflateResetKeep", "inflate.c:inflateReset2", "inflate.c:inflateInit2", "deflate.c:deflateInit2"}), 12)
     from .. import refwrites
     ck.floor("SIB/ref-writes", refwrites.check(ck, P, "SIB/ref-writes", only={"deflate.c:deflateResetKeep", "inflate.c:inflateResetKeep",
